@@ -238,6 +238,7 @@ impl Sim {
         let unbonding = case.unbonding_secs;
         let validators = names.validators.clone();
         let mut prestored: Option<u64> = None;
+        let mut prestore_panic: Option<String> = None;
         let app: SimApp = BasicAppBuilder::<SimMsg, SimQuery>::new_custom()
             .with_api(api)
             .with_storage(SimStorage::new())
@@ -248,7 +249,12 @@ impl Sim {
                     if case.prestore {
                         use cw_multi_test::Wasm;
                         let code = make_code(CodeKind::Direct, 0, &world, None);
-                        prestored = Some(k.store_code(Addr::unchecked(names.accounts[0].clone()), code));
+                        let creator = Addr::unchecked(names.accounts[0].clone());
+                        // (a fresh keeper has every id free; should storing panic all the same, the run reports it)
+                        match catch_unwind(AssertUnwindSafe(|| k.store_code(creator, code))) {
+                            Ok(id) => prestored = Some(id),
+                            Err(p) => prestore_panic = Some(panic_message(&p)),
+                        }
                     }
                     // (the generators are set even when they are the defaults, so that the builder steps run)
                     let k = if case.adv_addr { k.with_address_generator(crate::contract::AdvAddrGen) } else { k.with_address_generator(cw_multi_test::SimpleAddressGenerator) };
@@ -286,6 +292,9 @@ impl Sim {
                 }
             });
         let mut early: Vec<(String, String)> = vec![];
+        if let Some(p) = prestore_panic {
+            early.push(("panic".to_string(), format!("storing the first code in a fresh WasmKeeper panicked: {}", p)));
+        }
         if let Some(id) = prestored {
             // the code stored in the keeper before it was configured: id 1, usable like any other
             let creator = names.accounts[0].clone();
@@ -330,7 +339,7 @@ impl Sim {
             custom_queries_seen: vec![],
         };
         for (class, detail) in early {
-            sim.v(&["C11", "C20"], &class, detail);
+            sim.v(&["C11", "C20", "C19"], &class, detail);
         }
         sim
     }
